@@ -6,9 +6,11 @@ props=${@:-C01 C02 C03 C04 C05 C06 C07 C08 C09 C10 C11 C12 C13 C14 C15 C16 C17 C
 cd "$(dirname "$0")/.."
 python3 translator/py2lean.py /repo/src lean/Asynkit/Gen >/dev/null && (cd lean && lake build >/dev/null 2>&1) || { echo "SETUP FAILED"; exit 2; }
 export VERIF_EVIDENCE_DIR=${VERIF_EVIDENCE_DIR:-$(mktemp -d)} VERIF_REPLAYS_DIR=${VERIF_REPLAYS_DIR:-$(mktemp -d)}
+bad=0
 for s in $seeds; do for p in $props; do
   start=$(date +%s)
   out=$(VERIF_SEED=$s ./check $p --tier $tier 2>&1); rc=$?
   echo "seed=$s $p rc=$rc $(( $(date +%s) - start ))s $(echo "$out" | grep -c '^VIOLATION') violation-lines | $(echo "$out" | tail -1)"
-  [ $rc -ne 0 ] && echo "$out" | grep "VIOLATION\|rror" | head -5
+  if [ $rc -ne 0 ]; then bad=1; echo "$out" | grep "VIOLATION\|rror" | head -5; fi
 done; done
+exit $bad
